@@ -249,6 +249,21 @@ struct Run<'a> {
 struct Stop;
 type R = Result<(), Stop>;
 
+/// outcome of one select call: the position, or the refusal with the implementation's own words
+trait IntoSel {
+    fn into_sel(self) -> Result<usize, String>;
+}
+impl IntoSel for Option<usize> {
+    fn into_sel(self) -> Result<usize, String> {
+        self.ok_or_else(|| "none".to_string())
+    }
+}
+impl IntoSel for zipora::error::Result<usize> {
+    fn into_sel(self) -> Result<usize, String> {
+        self.map_err(|e| e.to_string())
+    }
+}
+
 /// a bulk call that answered Ok with a wrong number of results (logged as -2, never a defined answer)
 const MALFORMED: usize = usize::MAX - 1;
 /// answers are positions / counts <= 65538; anything >= 10^9 (a wrapped subtraction ...) is logged as
@@ -347,26 +362,49 @@ impl<'a> Run<'a> {
             Err(m) => Err(self.panic(api, m)),
         }
     }
-    /// select answered k by k; None/Err is logged as -1
-    fn select(&mut self, which: &str, api: &str, f: impl Fn(usize) -> Option<usize>) -> R {
+    /// select answered k by k; None/Err is logged as -1.  `why` projects what the refusals SAID:
+    /// "unimplemented" when every refusal of the batch says the operation is not implemented,
+    /// "range" otherwise (the implementation claims k is out of range), "" when nothing was refused.
+    fn select<S: IntoSel>(&mut self, which: &str, api: &str, f: impl Fn(usize) -> S) -> R {
         let (all, ks) = self.ks();
         let at = &self.at;
         let r = guard(|| {
-            ks.iter()
+            let mut unimpl = 0usize;
+            let mut refused = 0usize;
+            let v = ks
+                .iter()
                 .map(|&k| {
                     at.set(k);
-                    f(k).map(clip_m).unwrap_or(-1)
+                    match f(k).into_sel() {
+                        Ok(x) => clip_m(x),
+                        Err(m) => {
+                            refused += 1;
+                            let m = m.to_lowercase();
+                            if m.contains("not yet implemented") || m.contains("not implemented") || m.contains("unsupported") {
+                                unimpl += 1;
+                            }
+                            -1
+                        }
+                    }
                 })
-                .collect::<Vec<i64>>()
+                .collect::<Vec<i64>>();
+            (v, refused, unimpl)
         });
         match r {
-            Ok(r) => {
+            Ok((r, refused, unimpl)) => {
                 let n = r.len();
-                if which == "select0" && r.iter().all(|&x| x == -1) {
+                let why = if refused == 0 {
+                    ""
+                } else if unimpl == refused {
+                    "unimplemented"
+                } else {
+                    "range"
+                };
+                if why == "unimplemented" && refused == n {
                     self.st.select0_not_offered += 1;
                 }
                 let at = if all { vec![] } else { ks };
-                self.ev(json!({"op":"select","which":which,"api":api,"all":all,"at":at,"r":r}), n);
+                self.ev(json!({"op":"select","which":which,"api":api,"all":all,"at":at,"r":r,"why":why}), n);
                 Ok(())
             }
             Err(m) => Err(self.panic(api, m)),
@@ -529,8 +567,8 @@ fn ops_basic<T: RankSelectOps + ?Sized>(r: &mut Run, s: &T) -> R {
     r.get("get", |i| s.get(i))?;
     r.rank("rank1", "rank1", |p| s.rank1(p))?;
     r.rank("rank0", "rank0", |p| s.rank0(p))?;
-    r.select("select1", "select1", |k| s.select1(k).ok())?;
-    r.select("select0", "select0", |k| s.select0(k).ok())
+    r.select("select1", "select1", |k| s.select1(k))?;
+    r.select("select0", "select0", |k| s.select0(k))
 }
 
 /// the RankSelectPerformanceOps entry points
@@ -854,7 +892,7 @@ fn drive(a: &Args) {
                 continue;
             }
             // the word-level families and alternative routes are run on every 2nd..3rd vector only (quick tier)
-            if !a.thorough() && a.get("len").is_none() && !key_length(inp.len) {
+            if !a.thorough() && a.get("len").is_none() && (!key_length(inp.len) || (inp.len > 1100 && inp.len % 2048 != 0)) {
                 let light = route != "push"
                     || matches!(variant.as_str(), "sel00" | "sel10" | "sel01" | "alias32" | "alias64" | "opt_default" | "from_bit_vector" | "nosel_space" | "seq_noadapt")
                     || fam == "adaptive_md";
